@@ -71,6 +71,11 @@ def Stop.verdict : Stop → Option BErr
 def entryPanics (ch : ChainDef) : Bool :=
   prepPanics ch.ps || (stopOf ch.rs).isPanic || statPanics (stopOf ch.rs).blk ch.ss
 
+/-- a rule slot blocks and a statistic slot then panics in `OnEntryBlocked`: the request is admitted (fail-open) but its
+    context stays marked blocked until it exits -/
+def blockPanics (ch : ChainDef) : Bool :=
+  !prepPanics ch.ps && (stopOf ch.rs).verdict.isSome && statPanics (stopOf ch.rs).blk ch.ss
+
 /-- the verdict handed to the caller: `none` = admitted -/
 def specVerdict (ch : ChainDef) : Option BErr :=
   if entryPanics ch then none else (stopOf ch.rs).verdict
@@ -161,7 +166,6 @@ def sstep (s : SState) : Op → SState × Out
     match s.findEntry e, s.findChain n with
     | none, some ins =>
       let ch := specChain ins
-      let bp := entryPanics ch && !prepPanics ch.ps && (stopOf ch.rs).verdict.isSome
       match specVerdict ch with
       | some b =>
         ({ s with lastLog := specEntryLog ch,
@@ -169,7 +173,7 @@ def sstep (s : SState) : Op → SState × Out
       | none =>
         ({ s with lastLog := specEntryLog ch,
                   entries := s.entries ++ [{ name := e, chain := n, hooks := specHooks ch,
-                                             panicked := entryPanics ch, blockPanic := bp }] }, .pass)
+                                             panicked := entryPanics ch, blockPanic := blockPanics ch }] }, .pass)
     | _, _ => (s, .bad)
   | .whenexit e id b =>
     match s.findEntry e with
